@@ -59,12 +59,16 @@ func SweepOperands(kind ref.Kind, n, pos int) Tagged {
 		k++
 	}
 	doc.Rels = append(doc.Rels, ref.Relation{Name: "a", Rw: &ref.Rewrite{Kind: kind, Ch: ch}, Restr: sweepUser()})
+	// every operand reaches user and a terminal type of its own: a lost or doubled operand shows in the type sets
+	types := []ref.TypeDef{{Name: "user"}}
 	for i := 0; i < n-1; i++ {
-		doc.Rels = append(doc.Rels, ref.Relation{Name: fmt.Sprintf("x%03d", i), Rw: ref.T(), Restr: sweepUser()})
+		own := fmt.Sprintf("u%03d", i)
+		types = append(types, ref.TypeDef{Name: own})
+		doc.Rels = append(doc.Rels, ref.Relation{Name: fmt.Sprintf("x%03d", i), Rw: ref.T(), Restr: []ref.Restriction{{Type: "user"}, {Type: own}}})
 	}
 	op := map[ref.Kind]string{ref.Union: "union", ref.Inter: "intersection"}[kind]
 	return Tagged{Tag: fmt.Sprintf("sweep: %s of %d operands, direct assignment at %d", op, n, pos),
-		M: &ref.Model{Schema: "1.1", Types: []ref.TypeDef{{Name: "user"}, doc}}}
+		M: &ref.Model{Schema: "1.1", Types: append(types, doc)}}
 }
 
 // SweepRelations: one type with n relations declared in scrambled order.
@@ -228,4 +232,82 @@ func SweepModular(kind string, n int) Tagged {
 		}
 	}
 	return Tagged{Tag: fmt.Sprintf("sweep: modular model with %d %s over tied (module, file) groups", n, kind), M: m}
+}
+
+// ---- sweeps for the graph checks -------------------------------------------------------
+
+// SweepChain: n relations in a chain - r0 is assignable to user and r<i> reaches r<i-1> by a userset restriction, a tuple to
+// userset over p, or a computed reference: weights grow to n hops (or stay 1), declared in scrambled order.
+func SweepChain(kind string, n int) Tagged {
+	doc := ref.TypeDef{Name: "doc", Rels: []ref.Relation{{Name: "p", Rw: ref.T(), Restr: []ref.Restriction{{Type: "doc"}}}}}
+	for _, x := range scramble(n) {
+		name := fmt.Sprintf("r%03d", x)
+		if x == 0 {
+			doc.Rels = append(doc.Rels, ref.Relation{Name: name, Rw: ref.T(), Restr: sweepUser()})
+			continue
+		}
+		prev := fmt.Sprintf("r%03d", x-1)
+		switch kind {
+		case "userset":
+			doc.Rels = append(doc.Rels, ref.Relation{Name: name, Rw: ref.T(), Restr: []ref.Restriction{{Type: "doc", Relation: prev}}})
+		case "ttu":
+			doc.Rels = append(doc.Rels, ref.Relation{Name: name, Rw: ref.TT(prev, "p")})
+		default:
+			doc.Rels = append(doc.Rels, ref.Relation{Name: name, Rw: ref.C(prev)})
+		}
+	}
+	return Tagged{Tag: fmt.Sprintf("sweep: chain of %d relations by %s", n, kind), M: &ref.Model{Schema: "1.1", Types: []ref.TypeDef{{Name: "user"}, doc}}}
+}
+
+// SweepParents: a tupleset with n parent types, each with relation b assignable to a terminal type of its own (every third
+// one publicly), and doc#a: b from p.
+func SweepParents(n int) Tagged {
+	m := &ref.Model{Schema: "1.1"}
+	var parents []ref.Restriction
+	for i, x := range scramble(n) {
+		u := fmt.Sprintf("u%03d", x)
+		t := fmt.Sprintf("t%03d", x)
+		r := ref.Restriction{Type: u}
+		if i%3 == 2 {
+			r.Wildcard = true
+		}
+		m.Types = append(m.Types, ref.TypeDef{Name: u}, ref.TypeDef{Name: t, Rels: []ref.Relation{{Name: "b", Rw: ref.T(), Restr: []ref.Restriction{r}}}})
+		parents = append(parents, ref.Restriction{Type: t})
+	}
+	m.Types = append(m.Types, ref.TypeDef{Name: "doc", Rels: []ref.Relation{
+		{Name: "p", Rw: ref.T(), Restr: parents},
+		{Name: "a", Rw: ref.TT("b", "p")},
+		{Name: "c", Rw: ref.U(ref.C("a"), ref.TT("b", "p"))},
+	}})
+	return Tagged{Tag: fmt.Sprintf("sweep: tupleset with %d parent types", n), M: m}
+}
+
+// SweepPublic: relation m assignable to n public types (scrambled), reached by two parents that add one of their own.
+func SweepPublic(n int) Tagged {
+	m := &ref.Model{Schema: "1.1"}
+	var rs []ref.Restriction
+	for _, x := range scramble(n) {
+		u := fmt.Sprintf("u%03d", x)
+		m.Types = append(m.Types, ref.TypeDef{Name: u})
+		rs = append(rs, ref.Restriction{Type: u, Wildcard: true})
+	}
+	m.Types = append(m.Types, ref.TypeDef{Name: "a0"}, ref.TypeDef{Name: "zz"}, ref.TypeDef{Name: "doc", Rels: []ref.Relation{
+		{Name: "m", Rw: ref.T(), Restr: rs},
+		{Name: "v", Rw: ref.T(), Restr: []ref.Restriction{{Type: "doc", Relation: "m"}, {Type: "a0", Wildcard: true}}},
+		{Name: "w", Rw: ref.U(ref.C("m"), ref.T()), Restr: []ref.Restriction{{Type: "zz", Wildcard: true}}},
+	}})
+	return Tagged{Tag: fmt.Sprintf("sweep: %d public types on one relation", n), M: m}
+}
+
+// SweepModelsGraph returns the sweeps the graph checks build.
+func SweepModelsGraph(sizes []int) []Tagged {
+	var out []Tagged
+	for _, n := range sizes {
+		out = append(out,
+			SweepOperands(ref.Union, n, 0), SweepOperands(ref.Inter, n, n/2), SweepOperands(ref.Union, n, n-1),
+			SweepRelations(n), SweepTypes(n), SweepRestrictions(n),
+			SweepChain("userset", n), SweepChain("ttu", n), SweepChain("computed", n),
+			SweepParents(n), SweepPublic(n))
+	}
+	return out
 }
